@@ -99,8 +99,12 @@ M2Clauses(e) ==
       lhs(k) == IF dp >= 0 THEN M(e, k) * an ELSE M(e, k) * an * Pow10(-dp)
       rhs(k) == IF dp >= 0 THEN B(e, k) * ad * Pow10(dp) ELSE B(e, k) * ad
       tol == (IF dp >= 0 THEN Tol(e.magm) * an + Tol(e.mag) * ad * Pow10(dp) ELSE Tol(e.magm) * an * Pow10(-dp) + Tol(e.mag) * ad) + an + ad
+      \* values too large for the cross products to stay inside 32 bits are compared after scaling both down
+      big(k) == Abs(M(e, k)) > 2000000000 \div (an * Pow10(IMax(-dp, 0)) + 1) \/ Abs(B(e, k)) > 2000000000 \div (ad * Pow10(IMax(dp, 0)) + 1)
+      okk(k) == IF big(k) THEN LET f == 1000 IN Abs((M(e, k) \div f) * an * Pow10(IMax(-dp, 0)) - (B(e, k) \div f) * ad * Pow10(IMax(dp, 0))) <= (tol \div f) + an + ad + an * Pow10(IMax(-dp, 0)) + ad * Pow10(IMax(dp, 0))
+                ELSE Abs(lhs(k) - rhs(k)) <= tol
   IN (IF M2Keys(e) = BalKeys(e) THEN {} ELSE {"m2_paths_differ"})
-     \cup {"m2_not_abs_over_area:" \o k : k \in {k \in M2Keys(e) \cap BalKeys(e) : Abs(lhs(k) - rhs(k)) > tol}}
+     \cup {"m2_not_abs_over_area:" \o k : k \in {k \in M2Keys(e) \cap BalKeys(e) : ~okk(k)}}
 
 \* history: same input, another area
 AreaClauses(e) ==
